@@ -61,3 +61,15 @@ def shape(shape, model=None, obligation=None, **_):
   why = R.explain(xml) if res.kind.startswith("snapshot:") else None
   return True, (f"{shape} with {({k: str(v) for k, v in vals.items()})}: {res.kind}: {res.summary}\n{xml}\nttconv: {res.observed}\nTTML: {res.required}"
                 + (f"\n(explained by the deviation '{why}')" if why else ""))
+
+
+def parameter(xml, what, expected, observed=None, **_):
+  import rtc.c04 as R
+  from rtc.common import Recorder
+  R.install_capture()
+  rec = Recorder("C04", "", {})
+  R.check_parameters(rec)
+  for f in rec.failures.values():
+    if what in f["summary"]:
+      return True, f"{f['summary']}; required {f['required']}\n{xml}"
+  return False, f"{what}: read as required ({expected})"
